@@ -119,9 +119,9 @@ func init() {
 			"int-bounded": {M{"type": "integer", "minimum": 1}, 3}, "str-len": {M{"type": "string", "minLength": 1}, "s"},
 			"nullable-int": {M{"type": []any{"integer", "null"}}, 2}, "array": {M{"type": "array", "items": M{"type": "integer"}}, []any{1}},
 			"array-of-arrays": {M{"type": "array", "items": M{"type": "array", "items": M{"type": "string"}}}, []any{[]any{"x"}}},
-			"struct":     {M{"type": "object", "properties": M{"p": M{"type": "integer"}}}, M{"p": 1}},
-			"struct-req": {M{"type": "object", "properties": M{"p": M{"type": "integer"}}, "required": []any{"p"}}, M{"p": 1}},
-			"map-int":    {M{"type": "object", "additionalProperties": M{"type": "integer"}}, M{"k": 1}}, "map-string": {M{"type": "object", "additionalProperties": M{"type": "string"}}, M{"k": "v"}},
+			"struct":          {M{"type": "object", "properties": M{"p": M{"type": "integer"}}}, M{"p": 1}},
+			"struct-req":      {M{"type": "object", "properties": M{"p": M{"type": "integer"}}, "required": []any{"p"}}, M{"p": 1}},
+			"map-int":         {M{"type": "object", "additionalProperties": M{"type": "integer"}}, M{"k": 1}}, "map-string": {M{"type": "object", "additionalProperties": M{"type": "string"}}, M{"k": "v"}},
 			"map-number": {M{"type": "object", "additionalProperties": M{"type": "number"}}, M{}}, "map-bool": {M{"type": "object", "additionalProperties": M{"type": "boolean"}}, M{"k": true}},
 			"map-array":  {M{"type": "object", "additionalProperties": M{"type": "array", "items": M{"type": "string"}}}, M{"k": []any{"a"}}},
 			"map-struct": {M{"type": "object", "additionalProperties": M{"type": "object", "properties": M{"p": M{"type": "integer"}}}}, M{"k": M{"p": 1}}},
